@@ -103,7 +103,8 @@ CLAIMED = {
             "storage or conflict raise implies not committed and a rollback, an ambiguous error keeps all written files, nothing "
             "fallible runs after the commit point, _rollback deletes only files and markers the transaction wrote and never raises, "
             "_finish_committed removes only markers and never raises, and the object invariant 'a later rollback()/__exit__ can "
-            "delete written files only if the pointer was certainly not flipped' holds at EVERY exit of commit().",
+            "delete written files only if the pointer was certainly not flipped' holds at EVERY exit of commit(). MetadataManager.commit "
+            "refuses (ACCEPT) only for a stale base, a lost lock, a lost pointer race, a foreign table uuid or an injected fault.",
             "Trusted: T-store fault model; MetadataManager.commit / _commit_file_ops applied at the contract 'returns => flipped "
             "once, ConcurrentModificationException/other Exception => not flipped, AmbiguousCommitError => unknown' (proved for "
             "MetadataManager.commit in C01/C08). Interrupts are modelled at statement boundaries of commit() itself, not inside "
@@ -133,11 +134,14 @@ CLAIMED = {
     "C19": ("Proof of the action contracts of both lock implementations: FileLock._try_acquire_once/acquire return True only after a "
             "successful non-blocking flock on a kept-open descriptor of the persistent lock file, a failed attempt leaks nothing, "
             "TimeoutError fires only at/after the deadline with nothing held and every waiting round rechecks the deadline (loop "
-            "invariant), release unlocks+closes and never unlinks in flock mode, is_held reflects the held descriptor; for the S3 "
+            "invariant), release unlocks+closes and never unlinks in flock mode, is_held reflects the held descriptor; the providers' acquire() "
+            "(called as a statement by commit and table creation) returns only while holding the lock and a blocked one fails with "
+            "TimeoutError after a clock reading at/past the deadline (PROVIDER units, loop invariant for the S3 retry loop); for the S3 "
             "lock, create only by If-None-Match, takeover only after a HEAD showing age > lease and only by If-Match on that HEAD's "
             "etag, renewal by If-Match on the own etag with loss detection, is_held True only for own content read in that very "
-            "call (under an environment that may change the lock object at every request boundary). REL-S3 (release deletes only "
-            "its own lock) is refuted and carried as a known finding.",
+            "call (under an environment that may change the lock object at every request boundary); release deletes only right after a "
+            "GET that returned its own id. REL-S3 (the object still carries the own id at the instant of the DELETE) is refuted - the "
+            "GET/DELETE race - and carried as a known finding.",
             "Trusted: T-flock (kernel), T-s3 conditional PUT, A-clock (S3 LastModified vs local clock), lemma EXCL discharged as SMT obligations over the action contracts (one owner per instant, takeover only of a lapsed un-renewed lease, superseded holder observes the loss); T-s3 ETag = function of the content; real multi-process stress is outside this technique; the polling provider (no conditional "
             "writes) is excluded by the property itself.",
             "DESIGN.md 4/C19"),
@@ -157,7 +161,8 @@ CLAIMED = {
             "run inside a writer's conflict back-off.",
             "DESIGN.md 4/C06"),
     "C09": ("Proof of the lookup and repointing contracts over snapshot lists of unbounded length (T-forest heap/list theory, witness "
-            "instantiation): get_snapshot_by_id returns exactly the retained snapshot with that id; get_snapshot_by_timestamp "
+            "instantiation): get_snapshot_by_id returns exactly the retained snapshot with that id; both get_all_snapshots return the list of the metadata read by one refresh; "
+            "get_snapshot_by_timestamp "
             "returns the most recently committed retained snapshot not newer than the requested time (loop invariant over the "
             "stable sort, under WF's TS-MONO clause which create_snapshot is proved to maintain); _most_recent_snapshot_id / "
             "delete_snapshot repoint the table to the most recently committed survivor. Immutability of retained content is "
@@ -177,7 +182,8 @@ CLAIMED = {
             "last_sequence_number, timestamps non-decreasing, snapshot_log = exactly the retained snapshots in commit order, the "
             "cached base object never mutated; _append_metadata_log appends the superseded version once with its own timestamp and "
             "trims only the oldest entries to min(old+1, bound); create_manifest_file / read_manifest_file carry the original "
-            "adding snapshot and sequence number of files through manifest rewrites (CARRY); _commit_file_ops removes exactly "
+            "adding snapshot and sequence number of files through manifest rewrites (CARRY), and _commit_file_ops hands survivors to the "
+            "rewrite with the values they were read with (element-wise loop rule); _commit_file_ops removes exactly "
             "the named files (DELETE-EXACT). Callees are applied at their proved contracts (REPOINT, shrink contracts).",
             "Trusted: T-forest (stable sorted, comprehension order, slicing, del, deepcopy), IDS-UNIQUE/A-uuid, quantified WF "
             "clauses handled by witness instantiation (sound, possibly incomplete), int() grammar theory, T-codec between "
@@ -202,7 +208,8 @@ CLAIMED = {
             "invariant, unbounded field list); _validate_schema_against_table accepts an argument iff its signature equals the "
             "persisted schema's and touches no storage; create_arrow_schema returns, also on cache hits, a schema built from "
             "fields equal to the argument's (two-call relational harness, cache key must determine the fields), one Arrow field "
-            "per schema field with its name/type and nullable = not required; _validate_file_schema accepts a parquet file iff "
+            "per schema field with its name/type and nullable = not required; _iceberg_type_to_arrow maps every primitive type name, "
+            "list<...> and unknown names to the Arrow type of an independent specification table (TYPEMAP); _validate_file_schema accepts a parquet file iff "
             "its footer schema equals the table's and rejects unverifiable footers; append_data: rejected appends queue nothing "
             "and touch storage only behind the marker, no schema at all raises before writing. Three defects found by these "
             "obligations / the bounded scenario were repaired in /repo (1a3ee5b, bebf98f, 3d202df); schema-less tables accepting "
@@ -215,14 +222,15 @@ CLAIMED = {
             "DESIGN.md 4/C11"),
     "C03": ("Decomposition into per-function ordering and frame contracts that hold at every storage-action boundary (a crash is a "
             "prefix of the action trace), each proved on the real code: ATOMIC-FILE (write_file / DataFileWriter: temp name, fsync, "
-            "rename - a prefix leaves no file or the complete file), ORDER (metadata file and everything reachable from it "
+            "rename - a prefix leaves no file or the complete file; the target itself is never unlinked), ACCEPT (commit refuses only for a stale "
+            "base, a lost lock, a lost pointer race or an injected environment fault - never because of a dead writer's leftovers), ORDER (metadata file and everything reachable from it "
             "written before the pointer write, which is the only action that changes what readers resolve), NO-CLOBBER (before "
             "the pointer write only fresh uuid-named files are created, behind their markers), POST-CP (after it only markers are "
             "removed), GC-PREFIX (every single delete of a collection is for a file outside every retained snapshot's reachable "
             "set and the protection set, so every prefix of a collection is safe), RECOVER/INIT (reopening resolves the pointer "
             "or recovers among metadata-file names only; creation writes the metadata before the pointer). Lemma CRASH (SMT obligations: the store invariant Reach(pointer) subset Files is preserved by every action kind under the cited contracts) composes them into 'pre- or post-state, post only if the pointer was advanced'. The case 'orphan "
             "version + lost pointer' is the known finding shared with C10.",
-            "Trusted: faithful restatement of the cited obligations inside lemma CRASH, T-os (rename atomic; fsynced-then-renamed file complete), T-store, T-codec; power loss needs "
+            "Trusted: faithful restatement of the cited obligations inside lemma CRASH, T-os (rename atomic, os.rename = os.replace on POSIX; fsynced-then-renamed file complete), T-store, T-codec; power loss needs "
             "C16's durable reading of fsync in addition. BOUNDED, not counted as proved: fork-and-kill sweep - a child process "
             "runs create / append / multi-op / file delete / expire / delete-snapshot / collection and is killed with os._exit at "
             "its k-th storage system call for every k (380 crash points), the parent checks pre/post state, readability of every "
@@ -230,7 +238,7 @@ CLAIMED = {
             "DESIGN.md 4/C03"),
     "C16": ("Proof over the trace of T-os calls issued by the real code: LocalStorageBackend.write_file writes the whole content to a "
             "temp file in the target's directory, fsyncs it after the last write and before os.replace, fsyncs the directory after, and "
-            "an exception implies the rename did not happen; DataFileWriter.open/close do the same for parquet files (fsync of the "
+            "an exception implies the rename did not happen, the target itself is never unlinked; DataFileWriter.open/close do the same for parquet files (fsync of the "
             "finished temp file before the rename, directory fsync after); MetadataManager.commit writes the metadata file before the "
             "pointer and _commit_file_ops commits the snapshot after every manifest and the manifest list were written.",
             "Trusted: T-os page-cache/durable reading of write/fsync/replace, A-write, a swallowed directory-fsync OSError = "
